@@ -870,6 +870,228 @@ def glue_and_legacy(run):
                          % (t, got, types.count(t)), {"bytes": wr[1].hex(), "type": t})
 
 
+def create_streams(r):
+    """objects built through the public create() of their class over all combinations of the optional
+    arguments: parse(write(create(fields))) must give every field back, and (ticket payload) the
+    layout chosen by create() must be the one the model's rule names"""
+    import itertools
+    from tlslite import messages as M
+    from tlslite import extensions as E
+    from tlslite.constants import CertificateType, ExtensionType
+    from tlslite.x509certchain import X509CertChain
+    from tlslite.utils.codec import Parser
+    from .c15_real import mk_x509
+    ctx = r.ctx
+    rng = ctx.rng
+    g = r.gen
+
+    def viol(cls, sub, what, rep):
+        ctx.violation("c15:%s:%s" % (cls, sub), "%s: %s" % (cls, what),
+                      dict(rep, **{"class": cls, "defect": sub, "stage": "create"}))
+
+    def same(a, b):
+        if isinstance(a, (bytes, bytearray)) or isinstance(b, (bytes, bytearray)):
+            return a is not None and b is not None and bytes(a) == bytes(b)
+        if isinstance(a, (list, tuple)) and isinstance(b, (list, tuple)):
+            return len(a) == len(b) and all(same(x, y) for x, y in zip(a, b))
+        return a == b
+
+    def check(cls, key, obj, parse, expect, rep):
+        """expect: {attribute or callable-name: value}; parse(bytes) -> object"""
+        ctx.case(key=("create", cls, key), sample=None)
+        ctx.count("create:" + cls)
+        try:
+            with time_limit():
+                b = bytes(obj.write())
+                o2 = parse(b)
+        except Exception as e:  # noqa
+            viol(cls, "create-roundtrip-" + type(e).__name__, "parse(write(create(%s))) raised %s: %s" % (key, type(e).__name__, e), rep)
+            return None, None
+        for name, want in expect.items():
+            got = name(o2) if callable(name) else getattr(o2, name)
+            label = getattr(name, "__name__", name)
+            if not same(got, want):
+                viol(cls, "create-roundtrip-value", "created with %s, field %s written/parsed as %r instead of %r"
+                     % (key, label, got if not isinstance(got, (bytes, bytearray)) else bytes(got), want if not isinstance(want, (bytes, bytearray)) else bytes(want)),
+                     dict(rep, bytes=b.hex(), field=label))
+        try:
+            if bytes(o2.write()) != b:
+                viol(cls, "create-roundtrip-bytes", "write(parse(write(create(%s)))) differs" % key, dict(rep, bytes=b.hex()))
+        except Exception as e:  # noqa
+            viol(cls, "create-roundtrip-" + type(e).__name__, "re-serialising raised %s" % type(e).__name__, dict(rep, bytes=b.hex()))
+        return b, o2
+
+    # ---- SessionTicketPayload.create over every combination of the optional fields
+    names = [None, bytearray(), bytearray(b"example.com"), bytearray(g.rb(255)), bytearray(g.rb(65535))]
+    chains = [None, 1, 2]
+    nonces = [bytearray(), bytearray(b"\x01"), bytearray(g.rb(255))]
+    times = [0, 1, 2 ** 32, 2 ** 64 - 1]
+    secrets = [bytearray(g.rb(48)), bytearray(), bytearray(g.rb(65535))]
+    lines, metas = [], []
+    for name, nchain, etm, ems in itertools.product(names, chains, (False, True), (False, True)):
+        extra = [(nonces[0], times[1], secrets[0])] + [(rng.choice(nonces), rng.choice(times), rng.choice(secrets))
+                                                       for _ in range(ctx.pick(1, 4))]
+        if name is not None and len(name) == 11 and nchain is None and not etm and not ems:
+            extra = [(n, t, secrets[0]) for n in nonces for t in times] + [(nonces[0], 1, s_) for s_ in secrets]
+        for nonce, ctime, secret in extra:
+            ders = [bytes([0x30, 0x82]) + g.rb(rng.randrange(1, 200)) for _ in range(nchain or 0)]
+            chain = X509CertChain([mk_x509(d) for d in ders]) if nchain else None
+            pv = (3, rng.choice([1, 3, 4]))
+            suite = rng.choice([0x2f, 0x1301, 0xffff])
+            kw = dict(nonce=nonce, client_cert_chain=chain, encrypt_then_mac=etm, extended_master_secret=ems)
+            if name is not None or rng.random() < 0.5:
+                kw["server_name"] = name
+            key = "server_name=%s chain=%s etm=%s ems=%s nonce=%d time=%d secret=%d" % (
+                "None" if name is None else len(name), nchain, etm, ems, len(nonce), ctime, len(secret))
+            rep = {"ticket": {"server_name": None if name is None else bytes(name).hex(), "chain": [d.hex() for d in ders],
+                              "etm": etm, "ems": ems, "nonce": bytes(nonce).hex(), "creation_time": ctime,
+                              "master_secret": bytes(secret).hex(), "protocol_version": list(pv), "cipher_suite": suite,
+                              "pass_server_name": "server_name" in kw}}
+            try:
+                obj = M.SessionTicketPayload().create(secret, pv, suite, ctime, **kw)
+            except Exception as e:  # noqa
+                viol("SessionTicketPayload", "create-" + type(e).__name__, "create(%s) raised %s" % (key, e), rep)
+                continue
+            expect = {"master_secret": secret, "protocol_version": pv, "cipher_suite": suite, "creation_time": ctime,
+                      "nonce": nonce, "encrypt_then_mac": etm, "extended_master_secret": ems,
+                      "server_name": name if name else bytearray()}
+
+            def chain_of(o, ders=ders):
+                c = o.client_cert_chain
+                return [] if c is None else [bytes(x.writeBytes()) for x in c.x509List]
+            chain_of.__name__ = "client_cert_chain"
+            expect[chain_of] = ders
+            b, o2 = check("SessionTicketPayload", key, obj, lambda b: M.SessionTicketPayload().parse(Parser(bytearray(b))), expect, rep)
+            # the layout create() picked vs the model's rule, and the bytes vs the model's encoding of that layout
+            lines.append("ticketver %d %d %d %d" % (1 if nchain else 0, etm, ems, 1 if name else 0))
+            metas.append((key, rep, obj, b))
+    if r.lc is not None:
+        out = r.ask_many(lines)
+        ent = r.ents["sessionTicketPayload"]
+        encs = []
+        for (key, rep, obj, b), m in zip(metas, out):
+            ctx.compared()
+            if str(obj.version) != m:
+                ctx.disagree("ticket-layout", key, m, obj.version)
+                viol("SessionTicketPayload", "create-layout", "create(%s) chose payload version %d, the fields need version %s"
+                     % (key, obj.version, m), rep)
+            if b is not None:
+                encs.append("enc sessionTicketPayload " + V.render(ent.val(obj)))
+        for ((key, rep, obj, b), m) in zip([x for x in metas if x[3] is not None], r.ask_many(encs)):
+            ctx.compared()
+            if m != "ok " + hx(b):
+                ctx.disagree("encode:sessionTicketPayload(create)", key, m[:120], b.hex()[:120])
+
+    # ---- ClientHello.create over its optional arguments (each becomes an extension)
+    def ch_parse(b):
+        p = Parser(bytearray(b))
+        p.get(1)
+        return M.ClientHello().parse(p)
+    for ct, srp, tack, npn, sni, exts in itertools.product((None, [0, 1]), (None, bytearray(b"alice")), (False, True),
+                                                           (None, False, True), (None, "example.com"), (None, [])):
+        key = "certificate_types=%s srp=%s tack=%s npn=%s sni=%s extensions=%s" % (ct, srp is not None, tack, npn, sni, exts)
+        rnd, sid = bytearray(g.rb(32)), bytearray(g.rb(rng.choice([0, 32])))
+        suites = [rng.randrange(65536) for _ in range(rng.randrange(1, 5))]
+        rep = {"clientHello": key}
+        try:
+            obj = M.ClientHello().create((3, 3), rnd, sid, suites, certificate_types=ct, srpUsername=srp, tack=tack,
+                                         supports_npn=npn, serverName=sni, extensions=None if exts is None else list(exts))
+        except Exception as e:  # noqa
+            viol("ClientHello", "create-" + type(e).__name__, "create(%s) raised %s" % (key, e), rep)
+            continue
+        expect = {"client_version": (3, 3), "random": rnd, "session_id": sid, "cipher_suites": suites,
+                  "compression_methods": [0], "tack": bool(tack), "supports_npn": bool(npn),
+                  "server_name": bytearray(sni.encode()) if sni else bytearray(0), "srp_username": srp,
+                  "certificate_types": ct if ct is not None else [CertificateType.x509]}
+        check("ClientHello", key, obj, ch_parse, expect, rep)
+
+    # ---- ServerHello.create
+    def sh_parse(b):
+        p = Parser(bytearray(b))
+        p.get(1)
+        return M.ServerHello().parse(p)
+    for ct, npa, exts in itertools.product((None, 0, 1), (None, [], [bytearray(b"http/1.1"), bytearray(b"spdy/3")]), (None, [])):
+        key = "certificate_type=%s next_protos_advertised=%s extensions=%s" % (ct, npa, exts)
+        rnd, sid = bytearray(g.rb(32)), bytearray(g.rb(rng.choice([0, 32])))
+        try:
+            obj = M.ServerHello().create((3, 3), rnd, sid, 0x2f, certificate_type=ct, next_protos_advertised=npa,
+                                         extensions=None if exts is None else list(exts))
+        except Exception as e:  # noqa
+            viol("ServerHello", "create-" + type(e).__name__, "create(%s) raised %s" % (key, e), {"serverHello": key})
+            continue
+        expect = {"server_version": (3, 3), "random": rnd, "session_id": sid, "cipher_suite": 0x2f, "compression_method": 0}
+        if obj.extensions is not None:        # without an extension block nothing optional can be carried
+            expect["certificate_type"] = ct if ct is not None else CertificateType.x509
+            expect["next_protos_advertised"] = npa
+        check("ServerHello", key, obj, sh_parse, expect, {"serverHello": key})
+
+    # ---- smaller create() signatures with optional arguments
+    for hn, hns, sns in itertools.product((None, bytearray(b"a.example")), (None, [], [bytearray(b"b.example"), bytearray(b"c")]),
+                                          (None, [], [E.SNIExtension.ServerName(1, bytearray(b"x")), E.SNIExtension.ServerName(0, bytearray(b"d"))])):
+        obj = E.SNIExtension().create(hostname=hn, hostNames=hns, serverNames=sns)
+        want = None if (hn is None and hns is None and sns is None) else \
+            ([(0, hn)] if hn else []) + [(0, x) for x in (hns or [])] + [(s_.name_type, s_.name) for s_ in (sns or [])]
+        f = lambda o: None if o.serverNames is None else [(s_.name_type, s_.name) for s_ in o.serverNames]
+        f.__name__ = "serverNames"
+        check("SNIExtension", "hostname=%s hostNames=%s serverNames=%s" % (hn, hns, sns), obj,
+              lambda b: E.TLSExtension().parse(Parser(bytearray(b))), {f: want}, {"sni": [str(hn), str(hns), str(sns)]})
+    for ids, ex in itertools.product(([], [bytearray(b"\x01\x02")], [bytearray(), bytearray(g.rb(300))]), (b"", g.rb(5))):
+        obj = E.StatusRequestExtension().create(responder_id_list=ids, request_extensions=ex)
+        check("StatusRequestExtension", "ids=%d ext=%d" % (len(ids), len(ex)), obj,
+              lambda b: E.TLSExtension().parse(Parser(bytearray(b))),
+              {"status_type": 1, "responder_id_list": ids, "request_extensions": ex}, {"status_request": [len(ids), len(ex)]})
+    for size in (0, 1, 255, 65535):
+        check("PaddingExtension", "size=%d" % size, E.PaddingExtension().create(size),
+              lambda b: E.TLSExtension().parse(Parser(bytearray(b))), {"paddingData": bytes(size)}, {"padding": size})
+    for mt, pl, padlen in itertools.product((1, 2), (b"", g.rb(16), g.rb(300)), (0, 16, 255)):
+        f = lambda o: len(o.padding)
+        f.__name__ = "len(padding)"
+        check("Heartbeat", "type=%d payload=%d padding=%d" % (mt, len(pl), padlen), M.Heartbeat().create(mt, bytearray(pl), padlen),
+              lambda b: M.Heartbeat().parse(Parser(bytearray(b))), {"message_type": mt, "payload": pl, f: padlen}, {"heartbeat": [mt, len(pl), padlen]})
+    for types, cas, sig, ver in itertools.product(([], [1, 64]), ([], [bytearray(g.rb(20)), bytearray()]), ([], [(4, 1), (8, 4)]), ((3, 1), (3, 3))):
+        def cr_parse(b, ver=ver):
+            p = Parser(bytearray(b))
+            p.get(1)
+            return M.CertificateRequest(ver).parse(p)
+        expect = {"certificate_types": types, "certificate_authorities": cas}
+        if ver == (3, 3):
+            expect["supported_signature_algs"] = sig
+        check("CertificateRequest%s" % (ver,), "types=%s cas=%d sig=%s" % (types, len(cas), sig),
+              M.CertificateRequest(ver).create(types, cas, sig), cr_parse, expect, {"certificateRequest": [types, len(cas), sig, list(ver)]})
+
+
+    # ---- ServerKeyExchange.createDH / createSRP / createECDH (integers, lengths chosen by write())
+    suites = r.real.suites
+    for kind, ver in itertools.product(("dhanon", "dhe", "ecdhanon", "ecdhe", "srp", "srpcert"), ((3, 1), (3, 3))):
+        for _ in range(ctx.pick(2, 8)):
+            ints = [rng.choice([1, 2, 255, 256, rng.getrandbits(rng.choice([8, 64, 1024, 2048])) | 1]) for _ in range(3)]
+            salt, point = bytearray(g.rb(rng.choice([0, 1, 16, 255]))), bytearray(g.rb(rng.choice([1, 33, 65, 255])))
+            curve = rng.choice([23, 24, 29, 0x0100, 65535])
+            o = M.ServerKeyExchange(suites[kind], ver)
+            if kind.startswith("dh"):
+                o.createDH(*ints)
+                expect = {"dh_p": ints[0], "dh_g": ints[1], "dh_Ys": ints[2]}
+            elif kind.startswith("ecdh"):
+                o.createECDH(3, curve, point)
+                expect = {"curve_type": 3, "named_curve": curve, "ecdh_Ys": point}
+            else:
+                o.createSRP(ints[0], ints[1], salt, ints[2])
+                expect = {"srp_N": ints[0], "srp_g": ints[1], "srp_s": salt, "srp_B": ints[2]}
+            if kind in ("dhe", "ecdhe", "srpcert"):
+                o.signature = bytearray(g.rb(rng.choice([0, 64, 256])))
+                expect["signature"] = o.signature
+                if ver == (3, 3):
+                    o.hashAlg, o.signAlg = rng.choice([(4, 1), (8, 4), (6, 3)])
+                    expect["hashAlg"], expect["signAlg"] = o.hashAlg, o.signAlg
+
+            def ske_parse(b, kind=kind, ver=ver):
+                p = Parser(bytearray(b))
+                p.get(1)
+                return M.ServerKeyExchange(suites[kind], ver).parse(p)
+            check("ServerKeyExchange[%s,%s]" % (kind, ver), "ints=%s curve=%d" % ([x.bit_length() for x in ints], curve), o, ske_parse,
+                  expect, {"ske": [kind, list(ver), [hex(x) for x in ints], curve, bytes(point).hex(), bytes(salt).hex()]})
+
+
 def real_asn1(r):
     """the certificate-carrying formats once more with the real ASN.1 parsers (no stubs): a real
     X.509 certificate and a real SubjectPublicKeyInfo from the repository's test data"""
@@ -975,6 +1197,7 @@ def run(ctx):
         for name in names:
             do_format(r, name)
         glue_and_legacy(r)
+        create_streams(r)
     real_asn1(r)
     writer_prims(r)
     parser_prims(r)
@@ -997,7 +1220,7 @@ def replay(ctx, rep):
         return bool(ctx.violations and any(v["key"] == rep.get("key") or not v["found"] for v in ctx.violations))
     r = Run(ctx)
     before = len(ctx.violations)
-    if inp.get("stage") in ("writer", "parser", "legacy") or "format" not in inp:
+    if inp.get("stage") in ("writer", "parser", "legacy", "create") or "format" not in inp:
         print("replay of stage %r: re-running that part of the check" % inp.get("stage"))
         with opaque_asn1():
             r.load_trees()
@@ -1005,6 +1228,8 @@ def replay(ctx, rep):
                 writer_prims(r)
             elif inp.get("stage") == "parser":
                 parser_prims(r)
+            elif inp.get("stage") == "create":
+                create_streams(r)
             else:
                 glue_and_legacy(r)
         return any(v["key"] == rep.get("key") for v in ctx.violations) or len(ctx.violations) > before
